@@ -30,3 +30,16 @@ Proof. exact tie_execute_all. Qed.
 Check C16_source_execute : forall t f, TInv t -> w_execute Om (zabs t) (wabs t) f = Some (wres (execute t f)).
 Print Assumptions C16_source_execute.
 
+(** further methods regenerated in W-mode (swap / Buffer::new / tabs / dirty-list events, the buffer.resize query) *)
+(** Terminal::switch_to_alternate_buffer: mem::swap of the buffers and of the saved contexts, Buffer::new(cols, rows, Some(0), Some(&pen)), dirty marking *)
+Theorem C16_source_switch_to_alternate : forall t, ZW t -> w_switch_to_alternate_buffer Om (zabs t) (wabs t) = wres (switch_to_alternate_buffer t).
+Proof. exact w_switch_to_alternate_buffer_eq. Qed.
+Check C16_source_switch_to_alternate : forall t, ZW t -> w_switch_to_alternate_buffer Om (zabs t) (wabs t) = wres (switch_to_alternate_buffer t).
+Print Assumptions C16_source_switch_to_alternate.
+
+(** Terminal::switch_to_primary_buffer, including the geometry test before reflow *)
+Theorem C16_source_switch_to_primary : forall t, ZW t -> w_switch_to_primary_buffer Om (zabs t) (wabs t) = wres (switch_to_primary_buffer t).
+Proof. exact w_switch_to_primary_buffer_eq. Qed.
+Check C16_source_switch_to_primary : forall t, ZW t -> w_switch_to_primary_buffer Om (zabs t) (wabs t) = wres (switch_to_primary_buffer t).
+Print Assumptions C16_source_switch_to_primary.
+
